@@ -106,6 +106,23 @@ def _dispatch(chk, f, fmt_table):
                f"unknown {sel} -> ValueError", f"an unknown {sel} does not end in ValueError")
     body = arms["molli"].body
     inner = [s for s in body if isinstance(s, ast.Match) and "fmt" in names_in(s.subject)]
+    if not inner:
+        # the format decision is spread over nested tests (`if fmt == "cdxml": ..; with open(..): if fmt == "xyz": .. else: ..`):
+        # specialise the rest of the arm for every supported format and read the result as the `match fmt` it is equivalent to
+        supported_ = prog.const_eval(f.module, ast.Name(id=fmt_table, ctx=ast.Load()))
+        cut = max((i for i, s_ in enumerate(body) if isinstance(s_, ast.If) and norm(s_.test) == f"fmt not in {fmt_table}"), default=-1)
+        rest = body[cut + 1:]
+        if rest and any("fmt" in names_in(t_) for s_ in rest for t_ in ast.walk(s_) if isinstance(t_, (ast.If, ast.Match))):
+            consts = {fmt_table: set(supported_)}
+            cases = [ast.match_case(ast.MatchValue(ast.Constant(F_)), None, _specialize(rest, "fmt", F_, consts) or [ast.Pass()]) for F_ in sorted(supported_)]
+            m_ = ast.Match(ast.Name("fmt", ast.Load()), cases)
+            ast.copy_location(m_, rest[0])
+            for c_ in cases:
+                for n_ in ast.walk(c_.pattern):
+                    ast.copy_location(n_, rest[0])
+            ast.fix_missing_locations(m_)
+            body[cut + 1:] = [m_]
+            inner = [m_]
     chk.require(len(inner) == 1, f"{f.key}: `match fmt` not found directly inside the molli arm")
     inner = inner[0]
     from ..canon import path_conditions
@@ -124,6 +141,74 @@ def _dispatch(chk, f, fmt_table):
                f"arms {sorted(have)} cover {fmt_table} = {sorted(supported)}",
                f"{fmt_table} admits {missing} but the dispatch has no arm for it: the call silently returns None")
     return inner
+
+
+def _specialize(stmts, var, val, consts):
+    """the statements as they run when `var == val`: tests on `var` against constants / constant sets are decided, the branch
+    not taken is dropped, what follows a statement that always leaves is dropped (copies; the input is not modified)"""
+    import copy as _copy
+
+    def ev(t):
+        if isinstance(t, ast.Compare) and len(t.ops) == 1 and isinstance(t.left, ast.Name) and t.left.id == var:
+            r = t.comparators[0]
+            op = t.ops[0]
+            if isinstance(r, ast.Constant) and isinstance(op, (ast.Eq, ast.NotEq)):
+                return (val == r.value) if isinstance(op, ast.Eq) else (val != r.value)
+            if isinstance(op, (ast.In, ast.NotIn)):
+                s = None
+                if isinstance(r, (ast.Tuple, ast.List, ast.Set)) and all(isinstance(e, ast.Constant) for e in r.elts):
+                    s = {e.value for e in r.elts}
+                elif isinstance(r, ast.Name) and r.id in consts:
+                    s = consts[r.id]
+                if s is not None:
+                    return (val in s) if isinstance(op, ast.In) else (val not in s)
+        if isinstance(t, ast.UnaryOp) and isinstance(t.op, ast.Not):
+            v = ev(t.operand)
+            return None if v is None else not v
+        if isinstance(t, ast.BoolOp):
+            vs = [ev(v) for v in t.values]
+            if isinstance(t.op, ast.And):
+                return False if any(v is False for v in vs) else (True if all(v is True for v in vs) else None)
+            return True if any(v is True for v in vs) else (False if all(v is False for v in vs) else None)
+        return None
+
+    def ends(blk):
+        return bool(blk) and (isinstance(blk[-1], (ast.Return, ast.Raise, ast.Continue, ast.Break))
+                              or (isinstance(blk[-1], ast.If) and ends(blk[-1].body) and ends(blk[-1].orelse))
+                              or (isinstance(blk[-1], ast.With) and ends(blk[-1].body)))
+
+    out = []
+    for s in stmts:
+        if isinstance(s, ast.If):
+            v = ev(s.test)
+            if v is True:
+                out.extend(_specialize(s.body, var, val, consts))
+            elif v is False:
+                out.extend(_specialize(s.orelse, var, val, consts))
+            else:
+                n = _copy.copy(s)
+                n.body = _specialize(s.body, var, val, consts) or [ast.copy_location(ast.Pass(), s)]
+                n.orelse = _specialize(s.orelse, var, val, consts)
+                out.append(n)
+        elif isinstance(s, ast.Match) and isinstance(s.subject, ast.Name) and s.subject.id == var:
+            for c in s.cases:
+                lits = [p.value.value for p in ast.walk(c.pattern) if isinstance(p, ast.MatchValue) and isinstance(p.value, ast.Constant)]
+                if val in lits or (isinstance(c.pattern, ast.MatchAs) and c.pattern.pattern is None and c.guard is None):
+                    out.extend(_specialize(c.body, var, val, consts))
+                    break
+        elif isinstance(s, (ast.With, ast.For, ast.While)):
+            n = _copy.copy(s)
+            n.body = _specialize(s.body, var, val, consts) or [ast.copy_location(ast.Pass(), s)]
+            out.append(n)
+        elif isinstance(s, ast.Try):
+            n = _copy.copy(s)
+            n.body = _specialize(s.body, var, val, consts) or [ast.copy_location(ast.Pass(), s)]
+            out.append(n)
+        else:
+            out.append(s)
+        if ends(out):
+            break
+    return out
 
 
 def _otype_calls(body, recv):
